@@ -85,11 +85,19 @@ def driver_obligations(R, tier):
         if not ok and c[1] is None:
             c[1] = detail
     ncases = 0
+    import random as _random
+    rng = _random.Random(1234)
+    plan = []
     for nsteps in range(1, nmax + 1):
         perms = list(itertools.permutations(range(nsteps)))
         if nsteps == 4 and tier != 'quick':
             perms = perms[::3]
-        for perm in perms:
+        plan += [(nsteps, perm) for perm in perms]
+    # longer tables, a few row orders each (a defect that needs more than 3-4 steps, or a two-digit position)
+    for nsteps in ((5, 7, 12) if tier == 'quick' else (5, 6, 7, 9, 12, 20)):
+        plan += [(nsteps, tuple(reversed(range(nsteps))))] + [(nsteps, tuple(rng.sample(range(nsteps), nsteps))) for _ in range(2)]
+    for nsteps, perm in plan:
+        if True:
             for tkey in (('it',) if (nsteps > 2 and tier == 'quick') else ('it', 'iteration', 't', 'time')):
                 for vars_ in var_sets:
                     for est in est_sets:
@@ -245,7 +253,7 @@ def run(R):
     checks, ncases = driver_obligations(R, R.tier)
     secs = time.time() - t0
     R.bounded.append(dict(function='aurel.time.over_time / process_single_timestep',
-                          bound=f'{ncases} driver configurations: <= {3 if R.tier == "quick" else 4} steps x all row permutations x temporal keys x 4 vars lists x 3 estimate lists (+ all two-call splits for <= 2 steps); array contents opaque (all values)'))
+                          bound=f'{ncases} driver configurations: <= {3 if R.tier == "quick" else 4} steps x all row permutations, plus tables of 5-12 (thorough: up to 20) steps in reversed and random row orders, x temporal keys x 4 vars lists x 3 estimate lists (+ all two-call splits for <= 2 steps); array contents opaque (all values)'))
     for label, (cnt, fail) in checks.items():
         R.ob(f'time.over_time:{label}', 'over_time', 'refuted' if fail else 'bounded-ok', 'trace-contract', secs / max(len(checks), 1),
              fail or f'{cnt} checks', [label] if fail else None, bounded='shapes enumerated; contents symbolic', replay=native_replay)
